@@ -104,6 +104,18 @@ struct PB { w: DepW, l: Leaf }
 struct ShDots { l: Leaf }
 #[derive(TS)]
 struct UsesDots { d: ShDots, a: ShA }
+// two names that differ only in case, in one file (the order of the blocks is by code point, not by dictionary)
+#[derive(TS)]
+#[ts(export_to = "ids.ts")]
+struct UserId { v: u32 }
+#[derive(TS)]
+#[ts(export_to = "ids.ts")]
+struct UserID { v: String }
+#[derive(TS)]
+#[ts(export_to = "ids.ts")]
+struct Userid { v: bool }
+#[derive(TS)]
+struct UsesIds { a: UserId, b: UserID, c: Userid }
 #[derive(TS)]
 struct CarAliased { wheels: Wheels, seats: Seats, engine: MaybeEngine }
 
@@ -173,6 +185,7 @@ fn universe() -> Vec<Entry> {
         entry::<Wheel>("Wheel"), entry::<Seat>("Seat"), entry::<Engine>("Engine"), entry::<CarAliased>("CarAliased"),
         entry::<DepW>("DepW"), entry::<DepX>("DepX"), entry::<PA>("PA"), entry::<PB>("PB"),
         entry::<ShDots>("ShDots"), entry::<UsesDots>("UsesDots"),
+        entry::<UserId>("UserId"), entry::<UserID>("UserID"), entry::<Userid>("Userid"), entry::<UsesIds>("UsesIds"),
     ]
 }
 
